@@ -2,12 +2,12 @@ package checks
 
 import (
 	"fmt"
+	"github.com/verily-src/fhirpath-go/fhirpath/verifh/ftab"
 	"sort"
 	"strings"
 
 	"github.com/verily-src/fhirpath-go/fhirpath"
 	"github.com/verily-src/fhirpath-go/fhirpath/compopts"
-	"github.com/verily-src/fhirpath-go/fhirpath/internal/funcs"
 	"github.com/verily-src/fhirpath-go/fhirpath/system"
 	"github.com/verily-src/fhirpath-go/fhirpath/verifh/core"
 	"github.com/verily-src/fhirpath-go/fhirpath/verifh/lib"
@@ -96,7 +96,7 @@ func init() {
 		Rule:        "complete enumeration: every binary operator x operand position x 4 empty sources x 10 typed other operands (and both-empty); unary/type/indexer operators; every function-table name (read from the tree) x every arity Compile accepts x every position holding the empty collection with the other positions well-typed, and each other literal position additionally varied over 0/1/-1/2/1.0/0.5/MaxInt32 resp. ''/'a'/'abc'/'1' resp. true/false; every program that takes the empty collection from %e is also evaluated on one compiled expression after %e was bound to an Integer, a String and a Boolean (and those after the empty binding), with the freshly compiled expression as reference; non-trivial = distinct (program, outcome)",
 		Assumptions: []string{"well-typed companion arguments come from the specification signature table of C16"},
 		Subs: func(tier string) []core.Sub {
-			tbl := funcs.AddExperimentalFuncs(funcs.Clone())
+			tbl := ftab.Table(true)
 			var names []string
 			for k := range tbl {
 				names = append(names, k)
@@ -181,7 +181,7 @@ func init() {
 				{Name: "functions", N: len(names), Note: "table name x accepted arity x position (receiver, each argument) x 4 empty sources", Run: func(i int, r *core.Rec) {
 					name := names[i]
 					fn := tbl[name]
-					if lib.FuncName(fn.Func) == "fhirpath/internal/funcs.unimplemented" {
+					if fn.Impl == ftab.Placeholder {
 						return // the statement speaks of implemented functions
 					}
 					sig, ok := n1[name]
@@ -192,7 +192,7 @@ func init() {
 						sig = specSig{recv: "Patient.name"}
 					}
 					copts := []fhirpath.CompileOption{compopts.WithExperimentalFuncs()}
-					for n := fn.MinArity; n <= fn.MaxArity && n <= 4; n++ {
+					for n := fn.Min; n <= fn.Max && n <= 4; n++ {
 						for _, es := range emptySources {
 							for pos := -1; pos < n; pos++ { // -1 = receiver
 								args := fillArgs(sig, n)
